@@ -22,6 +22,8 @@ open TsGen TsVerif
 
 structure LRData where
   table : LR.Table
+  /-- all (non-repetition) actions of an entry — more than one at GLR entries -/
+  actions : Nat → Nat → List LR.Action := fun _ _ => []
   ambiguous : Nat → Nat → Bool
   visible : Nat → Bool
   tokenCount : Nat
@@ -133,6 +135,74 @@ def validateDocument (L : LRData) (start : Nat) (root : Tree) : Cert := Id.run d
       match LR.step L.table start st inp with
       | some (st', inp') => st := st'; inp := inp'
       | none => return .stuck s!"no step in state {LR.top start st} on token {x.sym}"
+  return .stuck "fuel"
+
+/-! ### GLR entries: a bounded version list (validation only — the theorems are about the
+deterministic machine)
+
+At an entry with several actions every action is tried on a copy of the stack (what
+`ts_parser__advance` does with stack versions); versions that cannot move are dropped; at most
+`maxVersions` are kept.  A document / certificate is accepted when SOME version produces the real
+tree (the real parser picks among the finished versions by dynamic precedence and error cost,
+which is not modelled). -/
+
+def maxVersions : Nat := 24
+
+/-- One step of one version with a specific action. -/
+def stepWith (T : LR.Table) (bottom : Nat) (a : LR.Action) (st : LR.Stack) (inp : List Tok) : Option (LR.Stack × List Tok) :=
+  LR.step { T with action := fun _ _ => a } bottom st inp
+
+/-- All successors of a version (empty when it is stuck or accepts). -/
+def successors (L : LRData) (bottom : Nat) (st : LR.Stack) (inp : List Tok) : List (LR.Stack × List Tok) :=
+  match inp with
+  | [] => []
+  | x :: _ => (L.actions (LR.top bottom st) x.sym).filterMap (fun a => stepWith L.table bottom a st inp)
+
+/-- GLR variant of `certifyReuse`. -/
+def certifyReuseGLR (L : LRData) (s A : Nat) (w u : List Tok) (shape : Array (Nat × Nat)) : Cert := Id.run do
+  let mut versions : List (LR.Stack × List Tok) := [([], w ++ u)]
+  let fuel := 4 * (w.length + u.length) + 16
+  for i in [0:fuel] do
+    let mut next : List (LR.Stack × List Tok) := []
+    for (st, inp) in versions do
+      if inp.length == 1 then
+        if let some e := targetEntry st A w.length then
+          if e.state == L.table.goto s A && shapeP L.visible e.tree 0 true #[] == shape then return .ok i
+      next := next ++ successors L s st inp
+    if next.isEmpty then return .stuck "all versions stuck"
+    versions := next.take maxVersions
+  return .stuck "fuel"
+
+/-- GLR variant of `validateDocument`: some version must accept with the real tree. -/
+def validateDocumentGLR (L : LRData) (start : Nat) (root : Tree) : Cert := Id.run do
+  let toks := ((leavesOf L.tokenCount root #[]).map (·.1)).toList
+  let want := shapeT root 0 true #[]
+  let mut versions : List (LR.Stack × List Tok) := [([], toks)]
+  let mut capped := false   -- versions were dropped by the cap: a failure then proves nothing
+  let fuel := 6 * toks.length + 32
+  for i in [0:fuel] do
+    let mut next : List (LR.Stack × List Tok) := []
+    for (st, inp) in versions do
+      match inp with
+      | [] => pure ()
+      | x :: _ =>
+        if (L.actions (LR.top start st) x.sym).contains .accept then
+          match (st.filter (fun e => !e.extra)) with
+          | [r] =>
+            match r.tree with
+            | .node rs rk =>
+              let mut got : Array (Nat × Nat) := #[(0, rs)]
+              for e in st.reverse do
+                if e.extra then got := shapeP L.visible e.tree 1 false got
+                else got := shapePL L.visible rk 1 got
+              if got == want then return .ok i
+            | .leaf _ => pure ()
+          | _ => pure ()
+        next := next ++ successors L start st inp
+    if next.isEmpty then
+      return if capped then .stuck "version cap" else .mismatch "no version of the GLR machine accepts with the real scratch tree"
+    if next.length > maxVersions then capped := true
+    versions := next.take maxVersions
   return .stuck "fuel"
 
 /-- A reused subtree of the new tree together with its position in the new tree's token sequence. -/
